@@ -91,13 +91,27 @@ func (ex *Exec) VerifyFunc(ct *Contract) (res *FuncResult) {
 		if !ok || isBigIntPtr(p.Type()) {
 			continue
 		}
-		for _, q := range fn.Params[i+1:] {
+		for j := i + 1; j < len(fn.Params); j++ {
+			q := fn.Params[j]
 			qt, ok := q.Type().Underlying().(*types.Pointer)
 			if !ok || !types.Identical(pt.Elem(), qt.Elem()) {
 				continue
 			}
-			a, b := vars[p.Name()].(T), vars[q.Name()].(T)
+			a, b := args[i].(T), args[j].(T) // by position: blank parameters share the name "_"
 			st.Assume(Or(Eq(a, IntLit(0)), Not(Eq(a, b))))
+		}
+	}
+	// positional names of the contract (`names a, b, _, c`): bound to the parameters whatever the code calls them
+	if len(ct.Names) > 0 {
+		off := 0
+		if fn.Signature.Recv() != nil {
+			off = 1
+		}
+		for i, n := range ct.Names {
+			if n == "" || n == "_" || off+i >= len(fn.Params) {
+				continue
+			}
+			vars[n] = args[off+i]
 		}
 	}
 	fvCells := map[string]int{}
@@ -178,6 +192,19 @@ func (ex *Exec) VerifyFunc(ct *Contract) (res *FuncResult) {
 		}
 		for name, c := range outer {
 			rv["final_"+name] = c
+		}
+		// loop-carried values as the path last saw them at each loop header: loop<n>_<name>. At a return that follows
+		// the normal exit of loop n they satisfy the exit condition; at a return from inside the body they do not.
+		for hb, ord := range fr.loops {
+			for _, ins := range hb.Instrs {
+				phi, ok := ins.(*ssa.Phi)
+				if !ok {
+					break
+				}
+				if v, ok := st2.env[phi]; ok && phi.Comment != "" {
+					rv[fmt.Sprintf("loop%d_%s", ord, phi.Comment)] = v
+				}
+			}
 		}
 		// ghost variables of iterators / ranges alive at the return (function-internal clauses may use them)
 		for name, res := range st2.callRes {
